@@ -314,14 +314,15 @@ FREE_INV = {"FUsedIsSum": ["C01"], "FAgree": ["C06"], "FLen": ["C06"], "FIndexEx
             "FConservation": ["C08"], "FNeverTwice": ["C08"], "FMetrics": ["C17"], "FWorkersGone": ["C12"], "FOpsComplete": ["C12", "C20"]}
 
 
-def free_stage(d, run, what, combos, est=False):
+def free_stage(d, run, what, combos, est=False, kinds=None, pclear=None):
     """FREE-RUNNING runs: the real background loops (select! + ticker / async tasks + timer on several executors),
     quiescent snapshots checked by Free_Trace.tla against the state predicates of Cache.tla."""
     wd = run.workdir
     for (flavor, ex, nq, nt) in combos:
         n = nt if _thorough(run) else nq
-        trace = os.path.join(wd, "free-%s-%s.ndjson" % (flavor, ex))
-        info = d.vh(["free", "--flavor", flavor, "--exec", ex, "--n", n, "--seed", run.seed, "--out", trace] + (["--est"] if est else []), timeout=1800)
+        trace = os.path.join(wd, "free-%s-%s%s.ndjson" % (flavor, ex, "-" + kinds.replace(",", "") if kinds else ""))
+        info = d.vh(["free", "--flavor", flavor, "--exec", ex, "--n", n, "--seed", run.seed, "--out", trace] + (["--est"] if est else [])
+                    + (["--kinds", kinds] if kinds else []) + (["--pclear", pclear] if pclear else []), timeout=1800)
         r = d.validate_trace("Free_Trace.tla", "Free_Trace.cfg", trace, wd)
         if r["status"] == "accepted":
             run.transitions += r["states"]
@@ -421,6 +422,20 @@ def _liveness(d, run):
         run.violation("specification Cache.tla violates liveness %s in MC_Cache_live.cfg" % r["violated"], replay_lines=[r["out"][-8000:]])
 
 
+def _drain_liveness(d, run):
+    """close() under sustained load (DrainLive.tla): holds for the bounded drain (the code after fix D9); the unbounded drain is
+    run as a witness that the liveness check bites -- TLC must find the lasso in which the processor never leaves the drain"""
+    r = d.tlc_mc("DrainLive.tla", "DrainLive_bounded.cfg", run.workdir, workers=2, timeout=600)
+    run.add_mc(r, "DrainLive_bounded (producers that never stop, buffer of 3, a closing client: close() returns and the drain ends, "
+                  "under WF of the processor and SF of the stop / clear arms of its select!)")
+    if r["violated"]:
+        run.violation("specification DrainLive.tla violates %s in DrainLive_bounded.cfg" % r["violated"], replay_lines=[r["out"][-8000:]])
+    w = d.tlc_mc("DrainLive.tla", "DrainLive_unbounded.cfg", run.workdir, workers=2, timeout=600)
+    if not any(v.startswith("<temporal") for v in w["violated"]):
+        raise d.ToolError("DrainLive_unbounded: the witness lasso (drain until the buffer is found empty never ends) was not found")
+    run.notes["drain_witness"] = "DrainLive_unbounded.cfg: %s, as expected (the pre-fix drain loop)" % w["violated"]
+
+
 def c10(d, run):
     _liveness(d, run)
     h = cache_stage(d, run, "real cache deviates from Cache.tla (wait barrier / termination)",
@@ -445,14 +460,15 @@ def c10(d, run):
 
 def c12(d, run):
     _liveness(d, run)
+    _drain_liveness(d, run)
     h = cache_stage(d, run, "real cache deviates from Cache.tla (close protocol)",
                     ["life"],
                     [("life", "sync", 50, 400), ("life", "async", 20, 150)],
                     ["life", "out", "chan", "store"], ["NoOrphan"], nontrivial=("ClrSend", "ClsStopSend", "ClsStopFail", "ClsPol", "ClsPolSend", "ClsPolFlag", "ClsFlag", "PStop", "LStop"))
     sim_stage(d, run, "real cache deviates from Cache.tla (close protocol)", ["life", "out", "chan", "store"], ["NoOrphan"], 40, 400,
               flavors=("sync", "async"))
-    free_stage(d, run, "the real background loops violate a state predicate of Cache.tla (worker termination)",
-               [("sync", "thread", 4, 24), ("async", "thread", 4, 24)])
+    free_stage(d, run, "the real background loops violate a state predicate of Cache.tla (worker termination, close() under load)",
+               [("sync", "thread", 5, 25), ("async", "thread", 5, 25)], kinds="norm,par,drop,tiny,par")
     if _thorough(run):
         exh_stage(d, run, "real cache deviates from Cache.tla (close protocol)", "exh_life", ["life", "out", "chan", "store"], ["NoOrphan"],
                   flavors=("sync", "async"))
@@ -477,8 +493,11 @@ def c17(d, run):
     _distinct_add(run, ht, ("update", "clear"))
     h = cache_stage(d, run, "real cache deviates from Cache.tla (metrics)",
                     ["seq", "conc"],
-                    [("seq", "sync", 20, 150), ("conc", "sync", 20, 200), ("evict", "sync", 20, 150), ("seq_internal", "sync", 10, 60), ("ttl", "sync", 10, 60)],
+                    [("seq", "sync", 20, 150), ("conc", "sync", 20, 200), ("evict", "sync", 20, 150), ("seq_internal", "sync", 10, 60), ("ttl", "sync", 10, 60),
+                     ("conc", "async", 10, 80)],
                     ["met", "costs", "chan", "store"], ["MetricsLaws", "MetricsCounts", "UsedIsSum"], nontrivial=("Get", "GetMut", "PNewAdd", "PNewStore", "PUpd", "PVictim", "PDelPolicy", "ClrMetrics", "InsSend"))
+    free_stage(d, run, "the real loops / parallel clients violate a conservation law of the counters",
+               [("sync", "thread", 4, 24), ("async", "thread", 4, 24), ("async", "local", 6, 30)], kinds="norm,par,norm", pclear=14)
     _need(d, h, ["Get", "PNewAdd", "PUpd", "PVictim", "ClrMetrics"])
     run.nontrivial = len(getattr(run, "_distinct", ()))
     run.rule = ("every counter is compared after every recorded critical section; non-trivial = quiescent points at which TLC "
@@ -547,8 +566,11 @@ def c05(d, run):
 def c09(d, run):
     h = cache_stage(d, run, "real cache deviates from Cache.tla (conditional writes)",
                     ["seq"],
-                    [("seq_veto", "sync", 30, 200), ("seq_veto5", "sync", 15, 100), ("cond", "sync", 20, 150), ("seq_veto", "async", 10, 60)],
-                    ["store", "em", "out", "chan", "cbs"], ["ResidentOwned", "IndexExact", "CondNeverCreates"], nontrivial=("InsBegin",))
+                    [("seq_veto", "sync", 30, 200), ("seq_veto5", "sync", 15, 100), ("cond", "sync", 20, 150), ("cond_internal", "sync", 10, 80),
+                     ("seq_veto", "async", 10, 60)],
+                    ["store", "em", "out", "chan", "cbs", "costs"], ["ResidentOwned", "IndexExact", "CondNeverCreates", "ChargeFormula"], nontrivial=("InsBegin",))
+    free_stage(d, run, "parallel writers of one key: the validator's verdicts and the replacements do not form a chain of InsBegin steps",
+               [("sync", "thread", 4, 24), ("async", "thread", 2, 12)], kinds="par")
     _need(d, h, ["InsBegin", "PNewStore"])
     run.nontrivial = len(getattr(run, "_distinct", ()))
     run.rule = ("non-trivial = insert / insert_if_present calls under vetoing validators (asymmetric and symmetric predicates over "
@@ -568,8 +590,9 @@ def c11(d, run):
     if _thorough(run):
         exh_stage(d, run, "real cache deviates from Cache.tla (clear)", "exh", ALL_CMP,
                   ["IndexExact", "Agree", "UsedIsSum", "MetricsLaws", "ResidentOwned", "ClearEmpties"], flavors=("sync", "async"))
-    free_stage(d, run, "the real cache violates a state predicate of Cache.tla at a quiescent point (clear() with a lookup guard held by another thread)",
-               [("sync", "thread", 8, 40), ("async", "thread", 4, 24)])
+    free_stage(d, run, "the real cache violates a state predicate of Cache.tla at a quiescent point (clear() with a lookup guard held by "
+               "another thread / operations issued straight after clear())",
+               [("sync", "thread", 8, 40), ("async", "thread", 4, 24), ("async", "local", 6, 30)], kinds="norm", pclear=14)
     _need(d, h, ["ClrSend", "ClrStore", "ClrMetrics", "PClrTake", "PCleanItem"])
     run.nontrivial = len(getattr(run, "_distinct", ()))
     run.rule = ("non-trivial = clear() calls with 0..buffer-size items pending, the processor and a second client interleaved at every "
@@ -582,7 +605,7 @@ def c16(d, run):
     h = cache_stage(d, run, "real cache deviates from Cache.tla (charged cost formula)",
                     ["seq"],
                     [("seq_internal", "sync", 25, 200), ("seq", "sync", 15, 100), ("seq_coster0", "sync", 10, 60), ("ttl", "sync", 10, 60),
-                     ("evict", "sync", 10, 80), ("seq_internal", "async", 10, 60)],
+                     ("evict", "sync", 10, 80), ("seq_internal", "async", 10, 60), ("ttl", "async", 10, 60)],
                     ["costs", "cbs", "chan", "store"], ["UsedIsSum", "Agree", "ChargeFormula"], nontrivial=("PNewAdd", "PUpd", "PVictim", "PCleanupDone"))
     _need(d, h, ["PNewAdd", "PUpd", "PVictim"])
     run.nontrivial = len(getattr(run, "_distinct", ()))
@@ -740,6 +763,7 @@ def c19(d, run):
 
 
 def c20(d, run):
+    _drain_liveness(d, run)
     mc = d.tlc_mc("MC_Config.tla", "MC_Config.cfg", run.workdir, workers=2)
     run.add_mc(mc, "MC_Config (num_counters 0..70 x max_cost {-5,0,1,2,100} x buffer {0,1,2}: validation rule and well-formed dimensions)")
     if mc["violated"]:
@@ -752,8 +776,9 @@ def c20(d, run):
                     [],
                     [("cfg", "sync", 70, 560), ("cfg", "async", 35, 280)],
                     ALL_CMP, ALL_INV, nontrivial=("Init", "Finalize", "LRecv", "PVictim", "PCleanupKey"))
-    free_stage(d, run, "a cache built from an accepted configuration does not complete its operations (real loops, tiny cleanup intervals included)",
-               [("sync", "thread", 8, 40), ("async", "thread", 4, 24)])
+    free_stage(d, run, "a cache built from an accepted configuration does not complete its operations (real loops, tiny cleanup intervals, "
+               "parallel clients included)",
+               [("sync", "thread", 10, 40), ("async", "thread", 5, 25)], kinds="norm,par,drop,tiny,tiny")
     _need(d, h, ["Finalize", "LRecv", "PVictim", "PCleanupKey", "Get"])
     run.nontrivial = len(getattr(run, "_distinct", ()))
     run.rule = ("one instance per configuration: num_counters 1..70 in turn (quick: once each for sync, every second one for async), "
